@@ -14,10 +14,12 @@ def getyp0(dae: nDAE, y0: np.ndarray, t0):
 
     yp0 = np.zeros_like(y0)
 
-    nonzero_rows = set(DiffEqn)
-    nonzero_cols = set(DiffVar)
-    Mp = M[list(nonzero_rows), :][:, list(nonzero_cols)]
-    yp0[DiffVar] = solve(Mp, F0[DiffEqn])
+    # rows and columns of the sub-block, the right-hand side and the result must use one and the same ordering:
+    # the differential equations need not be declared in the order of their state variables
+    nonzero_rows = np.unique(DiffEqn)
+    nonzero_cols = np.unique(DiffVar)
+    Mp = M[nonzero_rows, :][:, nonzero_cols]
+    yp0[nonzero_cols] = solve(Mp, F0[nonzero_rows])
     return yp0
 
 
